@@ -24,7 +24,9 @@
                                     `cyclicReference` only at an encoding that really is on a cycle,
                                     and never runs out of fuel;
   * `accepted_no_overlap`, `accepted_members_in_block`   what acceptance buys (from `Schema.resolve_wf`);
-  * `parseNum_spec`                 `from_chars` = the decimal-literal specification.
+  * `parseNum_spec`                 `from_chars` = the decimal-literal specification;
+  * `symbolic_name_per_character`   the naming rule of the specification quantifies over every character of the
+                                    name (a slip in the bounds of the validator's scan is impl≠spec, not mirrored).
 
   Hypotheses that remain, by name: `FpAgree` (acceptance of floating-point literals: model =
   specification; kernel-checked on a boundary grid, otherwise differential) and `NoTopLevelRef`
@@ -79,6 +81,34 @@ theorem check_error_sound (hfp : FpAgree) (s : SchemaDef) (hnr : NoTopLevelRef s
 theorem check_error_sound_hash_order (hfp : FpAgree) (s : SchemaDef) (hp : parsePhase s = .ok ()) (d : Diag)
     (h : typesPhase s = .error d) : ∀ w ∈ d.alts, w ∈ violations s :=
   check_error_sound_alts hfp s hp d h
+
+/-- **symbolic_name_per_character**: the naming rule of the specification is a statement about every
+    character of the name, not about the bounds of a scan: non-empty, every character a letter, a digit
+    or `_`, and the first one not a digit.  (`Schema.Rules.isSbeSymbolicName`, the transliteration of the
+    validator's `find_if_not` over `[begin, end)`, is proved equal to it: `symbolic_eq`.) -/
+theorem symbolic_name_per_character (n : String) :
+    Spec.Rules.symbolicName n = true ↔
+      n.toList ≠ [] ∧ (∀ c ∈ n.toList, c.isAlphanum = true ∨ c = '_') ∧
+      (∀ c, n.toList.head? = some c → c.isDigit = false) := by
+  unfold Spec.Rules.symbolicName
+  cases h : n.toList with
+  | nil => simp
+  | cons c cs =>
+    simp only [Bool.and_eq_true, Bool.not_eq_eq_eq_not, Bool.not_true, List.all_eq_true, Bool.or_eq_true, beq_iff_eq,
+      ne_eq, reduceCtorEq, not_false_eq_true, List.head?_cons, Option.some.injEq, true_and]
+    constructor
+    · rintro ⟨h1, h2⟩
+      exact ⟨h2, fun c' hc => hc ▸ h1⟩
+    · rintro ⟨h2, h1⟩
+      exact ⟨h1 c rfl, h2⟩
+
+/-- names that are wrong in exactly one character, wherever it is, and the forms that are fine -/
+example : ["-qty", ".qty", "$qty", "@qty", " qty", "+qty", ":qty", "#qty", "~qty", "éqty", "7qty", "qty-", "q-ty",
+           "qtyé", "-", "9", ""].all (fun n => !Spec.Rules.symbolicName n && !isSbeSymbolicName n) = true := by decide +kernel
+example : ["qty", "_", "a", "qty7", "q7ty", "_qty", "qty_", "__reserved", "_Upper", "final", "override", "import", "module"].all
+    (fun n => Spec.Rules.symbolicName n && isSbeSymbolicName n && !Spec.Rules.isKeyword n) = true := by decide +kernel
+example : ["and", "not_eq", "xor_eq", "alignas", "char8_t", "co_await", "concept", "requires"].all
+    (fun n => Spec.Rules.isKeyword n && isCppKeyword n) = true := by decide +kernel
 
 /-! ### concrete instances (kernel-evaluated) -/
 
